@@ -76,6 +76,10 @@ pub struct ConnStateRow {
     pub is_monitoring: bool,
     /// (database, key, baseline modification counter) of every watched key, sorted
     pub watched_detail: Vec<(usize, Vec<u8>, u64)>,
+    /// the transaction's aborted flag
+    pub aborted: bool,
+    /// frames held back behind a command that blocked the client
+    pub deferred: usize,
 }
 
 /// One waiter in `BlockingManager::verif_snapshot`
